@@ -29,7 +29,10 @@ func livePass(r *mc.Run, n int, stride int, budget time.Duration, exec func(i in
 			r.Cap(fmt.Sprintf("live-instance pass stopped by its budget after %d of %d cases", done, (n+stride-1)/stride))
 			break
 		}
-		liveScribble()
+		if changed := liveScribble(); changed != "" {
+			r.Bucket("live-instance/HELD-RESULT-CHANGED")
+			r.Violation(r.Prop+"/live-instance/result-handed-out-earlier-changed-by-a-later-call", fmt.Sprintf("before case #%d (stride %d): %s", i, stride, changed), liveCase{Live: true, Upto: i, Stride: stride, Tier: r.Tier, Held: true})
+		}
 		got := exec(i)
 		done++
 		r.Eval(1)
@@ -55,6 +58,7 @@ type liveCase struct {
 	Upto   int    `json:"upto"`
 	Stride int    `json:"stride"`
 	Tier   string `json:"tier"`
+	Held   bool   `json:"held_result_changed,omitempty"`
 }
 
 // liveReplay re-runs a live pass up to the recorded case and reports whether it still differs.
@@ -69,9 +73,21 @@ func liveReplay(raw json.RawMessage, prop string, n func(tier string) int, exec 
 	world.LiveBegin()
 	defer world.LiveEnd()
 	var got string
+	held := ""
 	for i := 0; i <= lc.Upto && i < n(lc.Tier); i += lc.Stride {
-		liveScribble()
+		if c := liveScribble(); c != "" {
+			held = c
+		}
+		if lc.Held && i == lc.Upto {
+			break
+		}
 		got = exec(lc.Tier, i)
+	}
+	if lc.Held {
+		if held != "" {
+			return []string{prop + "/live-instance/result-handed-out-earlier-changed-by-a-later-call"}, held, true
+		}
+		return nil, "no held result changed on replay", true
 	}
 	if got != want {
 		return []string{prop + "/live-instance-differs-from-fresh-instance"}, "live: " + short(got) + " | fresh: " + short(want), true
